@@ -140,7 +140,7 @@ theorem parseRfc3339Time_nanos_lt {e : Bytes} {t : Ts} (h : parseRfc3339Time e =
     | (simp at h; done)
     | (simp at h; rw [← h]; simp only []; first | omega | (split <;> omega))
 
-/-- the `DateTime` arm of `Timestamp::parse` hands on what `time` parsed (the year check of 62f4e8c only refuses) -/
+/-- the `DateTime` arm of `Timestamp::parse` hands on what `time` parsed (the year check of b7ef08a only refuses) -/
 theorem parseRfc3339_time {e : Bytes} {t : Ts} (h : parseRfc3339 e = some t) : parseRfc3339Time e = some t := by
   unfold parseRfc3339 at h
   cases ht : parseRfc3339Time e with
